@@ -204,6 +204,13 @@ def _table(S):
         return {"raise": core.exc_class(e)}
 
 
+def _raw(S, name):
+    try:
+        return getattr(S, name)
+    except Exception:
+        return None
+
+
 def snapshot(S):
     snap = {k: _access(S, k) for k in ("results", "time", "shelfTemp", "temp", "iceMassFraction")}
     if getattr(S, "Nrep", 1) > 1:
@@ -232,6 +239,7 @@ def run_real(case):
         return {"raise": core.exc_class(e), "stage": "init", "runs": []}
     const, visf = constants(S)
     obs = {"raise": None, "const": const, "visf": visf, "xi": recorded_xi(), "runs": []}
+    held = []
     for k, prog in enumerate(progs):
         if k > 0:
             try:
@@ -271,7 +279,38 @@ def run_real(case):
             except Exception as e:
                 rec["raise"] = core.exc_class(e)
         rec["snap"] = snapshot(S)
+        # the very objects the accessors handed out after THIS run (no copy) - re-read at the end
+        held.append({nm: _raw(S, nm) for nm in ("time", "shelfTemp", "temp", "iceMassFraction")})
         obs["runs"].append(rec)
+    # a SECOND object of the same configuration (same grid shape) run afterwards in this process
+    if case.get("then_other") is not None:
+        other = dict(case)
+        other.update(case["then_other"])
+        other.pop("runs", None)
+        try:
+            S2 = make_snowing(other, _program(other))
+            with scripted_frand(other.get("Frand")):
+                try:
+                    with warnings.catch_warnings():
+                        warnings.simplefilter("ignore")
+                        S2.run()
+                    obs["other_raise"] = None
+                except Exception as e:
+                    obs["other_raise"] = core.exc_class(e)
+        except Exception as e:
+            obs["other_raise"] = core.exc_class(e)
+    # what a caller who kept the histories of run k sees NOW (after all later runs / the second object)
+    runs_with_snap = [r for r in obs["runs"] if "snap" in r]
+    for rec, h in zip(runs_with_snap, held):
+        changed = []
+        for nm, ref in h.items():
+            first = rec["snap"].get(nm)
+            if ref is None or not isinstance(first, list):
+                continue
+            a, b = np.asarray(ref, dtype=float), np.asarray(first, dtype=float)
+            if a.shape != b.shape or not np.array_equal(a, b, equal_nan=True):
+                changed.append(nm)
+        rec["changed_later"] = changed
     return obs
 
 
@@ -338,7 +377,7 @@ def decode_model(r):
 
 
 RUN_FIELDS = ("dim", "config", "height", "diameter", "yaml", "k_s0", "t_tot", "start", "stop", "rate", "holds",
-              "cnTemp", "Frand", "runs", "Nrep", "how")
+              "cnTemp", "Frand", "runs", "Nrep", "how", "then_other")
 
 
 def source_key(case):
